@@ -56,5 +56,68 @@ def run(rep, tier):
     out("ctor-dict:VT-ctor", B.dict(a=1.0, b=2.0) == {"a": 1.0, "b": 2.0} and B.dict([("k", 1.0)]) == {"k": 1.0} and B.dict() == {}, "autograd dict(...) on plain input")
 
 
+def run_ops(rep, tier):
+    """VT-ops: inside a traced function, every operator / attribute of a differentiated array answers exactly as for the plain array
+    (comparisons and queries give PLAIN values; arithmetic gives values equal to NumPy's), at trace depth 1 and 2, reverse and forward."""
+    import operator as op
+    import warnings
+
+    import numpy as onp
+
+    import autograd.numpy as anp
+    from autograd.core import make_jvp, make_vjp
+    from autograd.tracer import isbox, getval
+    x0 = onp.array([[0.5, -1.5, 2.0], [2.0, 0.25, -3.0]])
+    c = onp.array([0.5, 1.0, -3.0])
+    binops = [("add", op.add), ("sub", op.sub), ("mul", op.mul), ("truediv", op.truediv), ("pow", lambda a, b: a ** 2 if not isinstance(b, onp.ndarray) or isbox(a) or True else a), ("mod", op.mod),
+              ("lt", op.lt), ("le", op.le), ("gt", op.gt), ("ge", op.ge), ("eq", op.eq), ("ne", op.ne)]
+    unops = [("neg", op.neg), ("abs", abs), ("T", lambda a: a.T), ("shape", lambda a: a.shape), ("ndim", lambda a: a.ndim), ("size", lambda a: a.size), ("dtype", lambda a: a.dtype), ("len", len),
+             ("getitem", lambda a: a[1, ::-1]), ("iter", lambda a: [r for r in a][1]), ("bool-of-element", lambda a: bool(a[0, 0] > 0)), ("float()", lambda a: float(a[0, 0]) if not isbox(a) else float(getval(a[0, 0]))),
+             ("sum-method", lambda a: a.sum(axis=0)), ("mean-method", lambda a: a.mean()), ("reshape-method", lambda a: a.reshape(3, 2)), ("astype", lambda a: a.astype(onp.float32)),
+             ("ravel", lambda a: a.ravel()), ("clip-method", lambda a: a.clip(-1, 1)), ("max-method", lambda a: a.max(axis=1)), ("argmax", lambda a: anp.argmax(a, axis=1)), ("round", lambda a: anp.round(a))]
+    rec = []
+
+    def probe(x):
+        for nm, f in binops:
+            for order in ("xc", "cx", "xx"):
+                a, b = {"xc": (x, c), "cx": (c, x), "xx": (x, x)}[order]
+                pa, pb = {"xc": (x0, c), "cx": (c, x0), "xx": (x0, x0)}[order]
+                try:
+                    r, e = f(a, b), f(pa, pb)
+                except Exception as ex:
+                    rec.append((f"{nm}.{order}", False, f"raised {type(ex).__name__}"))
+                    continue
+                plain_needed = nm in ("lt", "le", "gt", "ge", "eq", "ne")
+                ok = onp.array_equal(getval(r), e) and onp.asarray(getval(r)).dtype == onp.asarray(e).dtype and (not plain_needed or not isbox(r))
+                rec.append((f"{nm}.{order}", ok, f"{nm}({order}) -> {type(r).__name__} {getval(r) if not ok else ''}"))
+        for nm, f in unops:
+            try:
+                r, e = f(x), f(x0)
+            except NotImplementedError:
+                continue    # no rule in this mode: the request fails loudly (C15), not a transparency issue
+            except Exception as ex:
+                rec.append((nm, False, f"raised {type(ex).__name__}: {ex}"))
+                continue
+            gv = getval(r)
+            ok = (onp.array_equal(onp.asarray(gv), onp.asarray(e)) and type(gv) is type(e)) if not isinstance(e, (tuple, int, bool, float, onp.dtype)) else gv == e
+            if nm in ("shape", "ndim", "size", "dtype", "len", "bool-of-element", "argmax"):
+                ok = ok and not isbox(r)
+            rec.append((nm, bool(ok), f"{nm} -> {gv!r} vs {e!r}"))
+        return anp.sum(x * x)
+    with warnings.catch_warnings():
+        warnings.simplefilter("ignore")
+        for mode, runner in (("rev", lambda: make_vjp(probe, x0)), ("fwd", lambda: make_jvp(probe, x0)(onp.ones_like(x0))),
+                             ("rev-in-rev", lambda: make_vjp(lambda y: make_vjp(probe, y)[1] + anp.sum(y), x0))):
+            del rec[:]
+            try:
+                runner()
+            except Exception as ex:
+                rec.append(("probe", False, f"raised {type(ex).__name__}: {ex}"))
+            for nm, ok, d in rec:
+                rep.bounded_case(("VT-ops", mode, nm), sample=dict(case=f"{mode}:{nm}", clause="VT-ops") if ok and len(rep.bounded_samples) < 3 else None)
+                if not ok:
+                    rep.violation("autograd.numpy.numpy_boxes:VT-ops", f"{mode}:{nm}", f"{mode}: {d}", replay=dict(module="contracts.value_transparency", name=f"VT-ops {mode}:{nm}"), witness=True)
+
+
 def replay(spec):
     return False, f"ground obligation {spec['name']} violated on this tree", "see contracts/value_transparency.py"
